@@ -82,6 +82,10 @@ def check_strings(ck, gvh, oracle):
             for c in ops:
                 if "s" in (a[0], b[0], c[0]):
                     cases.append((a, b, c))
+    # former witnesses (corpus/C16/strfor.txt: three operands, a string operand written as its text in double quotes)
+    for f in N.read_corpus("C16", "strfor.txt"):
+        tr = tuple(("s", t[1:-1].replace("_", " ")) if t.startswith('"') else ("n", t) for t in f[:3])
+        cases.insert(0, tr)
     bad = [("b", t) for t in BAD] + [("b", None)]
     for x in bad:
         for pos in range(3):
@@ -116,7 +120,9 @@ def check_strings(ck, gvh, oracle):
             continue
         # manual: integer loop only if start and step ARE integers (not strings)
         manual_int = a[0] == "n" and c[0] == "n" and N.is_int(a[1]) and N.is_int(c[1])
-        alines.append("q%d %s %s %s %d plain" % (i, num_of(a, False), num_of(b, False), num_of(c, False), CAP))
+        # golua (after the repair of prepfor): a string start or step makes a float loop -- the IM view equals the manual's
+        im_int = manual_int
+        alines.append("q%d %s %s %s %d plain" % (i, num_of(a, not im_int), num_of(b, False), num_of(c, not im_int), CAP))
         blines.append("q%d %s %s %s %d plain" % (i, num_of(a, not manual_int), num_of(b, False), num_of(c, not manual_int), CAP))
     _, impl, _ = vlib.run_lines(gvh, ["for"], glines, timeout=600)
     _, ma, _ = vlib.run_lines(oracle, ["for"], alines, timeout=600)
